@@ -33,6 +33,7 @@ type upScript struct {
 	dir   string
 	final string
 	segm  bool // deliver the stream in random segments
+	hseg  int  // part of the header region a cut "inside the header" falls into (-1: drawn)
 }
 
 const foreignMarker = "somebody else's file\n"
@@ -90,7 +91,21 @@ func (s *upScript) position(r *rand.Rand, at map[string]any, off int) int {
 		case 2:
 			return 16 + H - 1
 		}
-		return 16 + pick(r, 1, 23, 24, 25, 39, 40, 41, 111, 112, H-17, H-16, H-15, 1+r.Intn(H-2))
+		// the four parts of the header region: FILP header [0,24), INFO fork header [24,40), info fork [40,H-16),
+		// DATA fork header [H-16,H); a script may name the part (hseg), otherwise it is drawn
+		seg := s.hseg
+		if seg < 0 || seg > 3 {
+			seg = r.Intn(4)
+		}
+		switch seg {
+		case 0:
+			return 16 + pick(r, 1, 4, 23, 24, 1+r.Intn(23))
+		case 1:
+			return 16 + pick(r, 25, 39, 40, 25+r.Intn(15))
+		case 2:
+			return 16 + pick(r, 41, 111, 112, 113, H-17, H-16, 41+r.Intn(H-16-41))
+		}
+		return 16 + pick(r, H-15, H-2, H-15+r.Intn(14))
 	case "data":
 		d := 0
 		if i < len(s.phi) {
@@ -161,6 +176,13 @@ func (k *worker) upRun(run int, sc map[string]any, big int, corrupt string) ([]m
 	}
 	s.name = nameClasses[nameOrder[(run+int(seed()))%len(nameOrder)]]
 	s.pf = r.Intn(2) == 0
+	if v, ok := sc["pf"].(bool); ok { // the script fixes Config.PreserveResourceForks
+		s.pf = v
+	}
+	s.hseg = -1
+	if _, ok := sc["hseg"]; ok {
+		s.hseg = num(sc, "hseg")
+	}
 	s.segm = r.Intn(3) == 0
 	s.data = content(r, s.N, 'F')
 	if s.R >= 0 {
@@ -217,16 +239,15 @@ func (k *worker) upRun(run int, sc map[string]any, big int, corrupt string) ([]m
 			}
 			fields = append(fields, sim.Fld(sim.FTransferSize, sim.U32(total)))
 		}
-		rep, err := k.c.Request(sim.TUploadFile, fields...)
-		if err != nil {
-			return false, fmt.Errorf("run %d: upload request: %w", run, err)
-		}
-		ev["replied"] = true
-		ev["err"] = rep.Err != 0
+		rep, replied, closed := k.ask(sim.TUploadFile, fields...)
+		ev["replied"] = replied
+		ev["closed"] = closed
+		ev["err"] = replied && rep.Err != 0
 		rf, ok := rep.Get(sim.FRefNum)
-		ev["has107"] = ok && len(rf) == 4 && rep.Err == 0
+		ok = replied && ok && len(rf) == 4 && rep.Err == 0
+		ev["has107"] = ok
 		ref, off = nil, 0
-		if ok && len(rf) == 4 && rep.Err == 0 {
+		if ok {
 			ref = rf
 		}
 		if resume {
